@@ -1,5 +1,5 @@
 (* C12 property theorems. Nothing but statements closed by [exact], one non-vacuity Example, Print Assumptions.
-   Model = bcache with repairs D3 and D24 (Model.v); fl = the float64 score conversion, f64r g its concrete form. *)
+   Model = bcache with repairs D3, D24 and D32 (Model.v); fl = the float64 score conversion, f64r g its concrete form. *)
 From VF Require Import Common.Base C12.Model C12.Spec C12.Proofs C12.Proofs2 C12.Interval C12.IntervalProofs
   C12.Check C12.Proofs3 C12.DecidedProofs.
 From Coq Require Import Sorting.Sorted.
@@ -103,7 +103,7 @@ Proof. exact f64r_round. Qed.
 
 (* no false alarm: observations that the reference semantics can produce for SOME instants inside the
    recorded clock brackets are accepted by the interval checker *)
-Theorem C12_admissible_complete : forall g defttl tr, 0 < g -> trace_wf tr ->
+Theorem C12_admissible_complete : forall g defttl tr, 0 < g ->
   (exists ts, within tr ts /\ spec_outputs (f64r g) defttl tr ts = observed tr) ->
   admissible_b g defttl tr = true.
 Proof. exact admissible_complete_f64r. Qed.
@@ -126,29 +126,52 @@ Proof. exact decided_sound_f64r. Qed.
 (* non-vacuity: a timed set, an untimed re-set of the same key, a sweep past the old deadline, gets *)
 Example C12_nonvacuous :
   let tops := [(1000, OSet 1 10 40); (1010, OSet 1 11 (-1)); (2000, OSweep); (2010, OGet 1);
-               (2020, OSetIfAbsent 2 12 0); (2030, OCount); (3000, OGet 2); (3010, OSweep); (3020, OExport)] in
+               (2020, OSetIfAbsent 2 12 0); (2030, OCount); (3000, OGet 2); (3010, OSweep); (3020, OExport);
+               (3030, OSet 3 13 40); (3040, OLoad [(3, (14, 0)); (4, (15, 3000)); (5, (16, 9000))]);
+               (4000, OSweep); (4010, OGet 3); (4020, OExport)] in
   times_ok tops /\ ops_wf tops /\
   snd (mrun (f64r 4) 40 st0 tops)
   = [OutUnit; OutUnit; OutUnit; OutGet (Some (11, 0)); OutBool true; OutCount 2; OutGet None; OutUnit;
-     OutExport [(1, (11, 0))]].
+     OutExport [(1, (11, 0))]; OutUnit; OutUnit; OutUnit; OutGet (Some (14, 0));
+     OutExport [(1, (11, 0)); (3, (14, 0)); (5, (16, 9000))]].
 Proof.
   cbv zeta. split; [split|split].
   - repeat constructor.
   - simpl. lia.
-  - repeat constructor.
+  - repeat constructor; simpl; try lia; intuition lia.
   - vm_compute. reflexivity.
 Qed.
 
-(* outside the property (it speaks of Load on an EMPTY cache), recorded because the faithful model shows it and
-   the real code replays it: Load over a key that holds a timed entry goes through setDeadline, which has no
-   Remove for an untimed entry (0027 repaired set/replace only): the old deadline stays in the index and the
-   next sweep past it deletes the entry that was loaded without expiry. *)
-Example C12_load_nonempty_refuted :
+(* Load onto an arbitrary cache (D32 repaired): every key of the data whose entry is not expired at the load
+   instant holds exactly the loaded (value, deadline), every other key is unchanged, and the index invariant
+   is kept (so C12_untimed_survive / C12_sweep_exact apply to loaded entries as to any other) *)
+Theorem C12_load : forall fl defttl s (data : list (Z * entry)) now, Inv fl s -> NoDup (map fst data) ->
+  let s' := fst (mstep fl defttl s now (OLoad data)) in
+  Inv fl s' /\
+  forall k, m_get (member s') k = match m_get data k with
+                                  | Some (v, d) => if expired now d then m_get (member s) k else Some (v, d)
+                                  | None => m_get (member s) k
+                                  end.
+Proof. exact load_any. Qed.
+
+(* Load judges every decoded entry at its own clock reading; the abstract Load of the interval checker
+   concretises every such outcome *)
+Theorem C12_load_multi_instant : forall a b data ts abs conc,
+  G abs conc -> length ts = length data -> Forall (fun t => a <= t <= b) ts ->
+  G (aload a b data abs) (load_multi ts conc data).
+Proof. exact aload_covers_multi_instant. Qed.
+
+(* the setDeadline of the code BEFORE repair 0041 (D32), kept as m_set_deadline_old: Load over a key that holds
+   a timed entry leaves the old deadline in the index, and the next sweep past it deletes the entry that was
+   loaded WITHOUT expiry (replayed on the real code: findings/D32-bcache-load-keeps-stale-deadline.json) *)
+Example C12_load_old_refuted :
   let fl := f64r 4 in
   let s := fst (mrun fl 0 st0 [(1000, OSet 1 10 40)]) in
-  let s1 := load_into fl s [(1, (11, 0))] 1001 in
-  m_get (member s1) 1 = Some (11, 0) /\ m_get (member (m_sweep fl s1 2000)) 1 = None.
-Proof. vm_compute. split; reflexivity. Qed.
+  let s1 := load_into_old fl s [(1, (11, 0))] 1001 in
+  let s2 := load_into fl s [(1, (11, 0))] 1001 in
+  m_get (member s1) 1 = Some (11, 0) /\ m_get (member (m_sweep fl s1 2000)) 1 = None /\
+  m_get (member (m_sweep fl s2 2000)) 1 = Some (11, 0).
+Proof. vm_compute. repeat split; reflexivity. Qed.
 
 (* non-vacuity of the interval theorems: a recorded trace that is admissible and decided *)
 Example C12_nonvacuous_trace :
@@ -158,12 +181,17 @@ Example C12_nonvacuous_trace :
               {| t_op := OSweep; t_a := 2000; t_b := 2002; t_out := OutUnit |};
               {| t_op := OCount; t_a := 2010; t_b := 2012; t_out := OutCount 1 |};
               {| t_op := OGet 1; t_a := 2020; t_b := 2022; t_out := OutGet None |};
-              {| t_op := OExport; t_a := 2030; t_b := 2032; t_out := OutExport [(2, (11, 0))] |} ] in
+              {| t_op := OExport; t_a := 2030; t_b := 2032; t_out := OutExport [(2, (11, 0))] |};
+              {| t_op := OSet 3 12 40; t_a := 2040; t_b := 2042; t_out := OutUnit |};
+              {| t_op := OLoad [(3, (13, 0)); (4, (14, 1500))]; t_a := 2050; t_b := 2052; t_out := OutUnit |};
+              {| t_op := OSweep; t_a := 3000; t_b := 3002; t_out := OutUnit |};
+              {| t_op := OGet 3; t_a := 3010; t_b := 3012; t_out := OutGet (Some (13, 0)) |} ] in
   trace_wf tr /\ admissible_b 4 0 tr = true /\ decided_b 4 0 tr = true /\
-  within tr [1001; 1011; 1021; 2001; 2011; 2021; 2031] /\
-  spec_outputs (f64r 4) 0 tr [1001; 1011; 1021; 2001; 2011; 2021; 2031] = observed tr.
+  within tr [1001; 1011; 1021; 2001; 2011; 2021; 2031; 2041; 2051; 3001; 3011] /\
+  spec_outputs (f64r 4) 0 tr [1001; 1011; 1021; 2001; 2011; 2021; 2031; 2041; 2051; 3001; 3011] = observed tr.
 Proof.
-  cbv zeta. split; [repeat constructor|]. split; [vm_compute; reflexivity|]. split; [vm_compute; reflexivity|].
+  cbv zeta. split; [repeat constructor; simpl; try lia; intuition lia|].
+  split; [vm_compute; reflexivity|]. split; [vm_compute; reflexivity|].
   split; [repeat constructor; simpl; lia|vm_compute; reflexivity].
 Qed.
 
@@ -177,6 +205,8 @@ Print Assumptions C12_setifabsent.
 Print Assumptions C12_replace.
 Print Assumptions C12_count.
 Print Assumptions C12_roundtrip.
+Print Assumptions C12_load.
+Print Assumptions C12_load_multi_instant.
 Print Assumptions C12_f64r_round.
 Print Assumptions C12_admissible_complete.
 Print Assumptions C12_kind2_iff_inadmissible.
